@@ -20,13 +20,14 @@
    The second half is the wire level: Parse reads a byte string into the abstract
    form (the "reference protobuf reading"), so recorded inputs are judged from their
    bytes alone. *)
-EXTENDS Integers, Sequences, FiniteSets, TLC, Json
+EXTENDS Integers, Sequences, FiniteSets, TLC, Json, Randomization
 
 CONSTANTS NonceLen,     \* 16
           MaxEnv,       \* bedrockprincipal.MaxEnvelopeBytes = 16384
           Nums,         \* field numbers of the exhaustive model
           MaxFields,    \* bound on the sequence length
-          ExportMin,    \* export sequences of at least this length (-1: no export)
+          Fanout,       \* 0: all field kinds are successors; k > 0: k random ones per shape (simulation)
+          ExportMin,    \* export sequences of at least this length (99: no export)
           Broken        \* TRUE: ExtractS forgets the nonce rule (non-vacuity of Equiv)
 
 Zero8 == <<0, 0, 0, 0, 0, 0, 0, 0>>
@@ -54,7 +55,8 @@ Listed(fs) ==
        \/ \E i \in Envs : fs[i].v.n = 0 \/ fs[i].v.n > MaxEnv      \* empty / oversized
        \/ Envs # {} /\ LastV(fs, 9, 2, EmptyB).n # NonceLen        \* envelope without nonce
 
-ExtractD(fs) ==
+ExtractD(fs0) ==
+    LET fs == fs0 IN
     IF Listed(fs) THEN Rejected
     ELSE IF \A i \in 1..Len(fs) : ~IsP(fs[i]) THEN NoPrincipal
     ELSE [out |-> "ok",
@@ -122,13 +124,15 @@ BytesU == [num : Nums, wt : {2}, v : BytesVals]
 OtherU == [num : Nums, wt : {1, 3, 4, 5}, v : {<<>>}]
 CutU == [num : {0}, wt : {9}, v : {<<k>> : k \in 1..6}]
 
+Pick(U) == IF Fanout = 0 THEN U ELSE RandomSubset(Fanout, U)
+
 Init == fs = <<>>
 Next == /\ Len(fs) < MaxFields
         /\ IF fs = <<>> THEN TRUE ELSE fs[Len(fs)].wt # 9
-        /\ \/ \E f \in VarU : fs' = Append(fs, f)
-           \/ \E f \in BytesU : fs' = Append(fs, f)
-           \/ \E f \in OtherU : fs' = Append(fs, f)
-           \/ \E f \in CutU : fs' = Append(fs, f)
+        /\ \/ \E f \in Pick(VarU) : fs' = Append(fs, f)
+           \/ \E f \in Pick(BytesU) : fs' = Append(fs, f)
+           \/ \E f \in Pick(OtherU) : fs' = Append(fs, f)
+           \/ \E f \in Pick(CutU) : fs' = Append(fs, f)
 Spec == Init /\ [][Next]_fs
 
 Equiv == ExtractD(fs) = ExtractS(fs)
@@ -138,7 +142,7 @@ NeverDowngraded == Listed(fs) => ExtractS(fs).out = "err"
 OnlyListed == ExtractS(fs).out = "err" => Listed(fs)
 
 Terminal == Len(fs) = MaxFields \/ (fs # <<>> /\ fs[Len(fs)].wt = 9)
-Emit == (ExportMin >= 0 /\ Len(fs) >= ExportMin) => PrintT(<<"VEC", ToJson(fs)>>)
+Emit == Len(fs) >= ExportMin => PrintT(<<"VEC", ToJson(fs)>>)
 
 ----------------------------------------------------------------------------
 (* Wire level: the reference reading of a byte string b (1-based, bytes 0..255). *)
@@ -146,9 +150,9 @@ Emit == (ExportMin >= 0 /\ Len(fs) >= ExportMin) => PrintT(<<"VEC", ToJson(fs)>>
 Min2(a, b) == IF a < b THEN a ELSE b
 
 \* index of the last byte of the varint that starts at b[i]; 0 if it is cut or longer than 10 bytes
-VarEnd(b, i) ==
-    LET C == {j \in i..Min2(i + 9, Len(b)) : b[j] < 128}
-    IN IF C = {} THEN 0 ELSE CHOOSE j \in C : \A k \in C : j <= k
+RECURSIVE Scan(_, _, _)
+Scan(b, j, hi) == IF j > hi THEN 0 ELSE IF b[j] < 128 THEN j ELSE Scan(b, j + 1, hi)
+VarEnd(b, i) == Scan(b, i, Min2(i + 9, Len(b)))
 
 \* 7-bit group g (0 = least significant) of the varint in b[i..e]
 Grp(b, i, e, g) == IF i + g > e THEN 0 ELSE b[i + g] % 128
@@ -167,14 +171,17 @@ V8(b, i, e) ==
 
 \* the value as a natural number, -1 if it does not fit 31 bits
 VNat(b, i, e) ==
-    IF (\E g \in 5..9 : Grp(b, i, e, g) # 0) \/ Grp(b, i, e, 4) >= 8 THEN -1
+    IF e = i THEN b[i]
+    ELSE IF (\E g \in 5..9 : Grp(b, i, e, g) # 0) \/ Grp(b, i, e, 4) >= 8 THEN -1
     ELSE Grp(b, i, e, 0) + 128 * Grp(b, i, e, 1) + 16384 * Grp(b, i, e, 2)
          + 2097152 * Grp(b, i, e, 3) + 268435456 * Grp(b, i, e, 4)
 
 BadTag == [ok |-> FALSE, num |-> 0, wt |-> 0, next |-> 0]
 \* lax: field numbers up to 2^31-1 (Go's protowire); strict: up to 2^29-1 (the protobuf spec)
 Tag(b, i, lax) ==
-    LET e == VarEnd(b, i) IN
+    IF b[i] < 128      \* one-byte tag: field numbers 1..15
+      THEN IF b[i] < 8 THEN BadTag ELSE [ok |-> TRUE, num |-> b[i] \div 8, wt |-> b[i] % 8, next |-> i + 1]
+    ELSE LET e == VarEnd(b, i) IN
     IF VBad(b, i, e) THEN BadTag
     ELSE IF (\E g \in 5..9 : Grp(b, i, e, g) # 0) \/ Grp(b, i, e, 4) >= 64 THEN BadTag
     ELSE LET num == (Grp(b, i, e, 0) \div 8) + 16 * Grp(b, i, e, 1) + 2048 * Grp(b, i, e, 2)
@@ -182,8 +189,11 @@ Tag(b, i, lax) ==
          IN IF num = 0 \/ (~lax /\ num > 536870911) THEN BadTag
             ELSE [ok |-> TRUE, num |-> num, wt |-> b[i] % 8, next |-> e + 1]
 
-Abs(s) == LET u == Len(s) > 0 /\ \A k \in 1..Len(s) : s[k] = s[1]
-          IN [n |-> Len(s), f |-> IF u THEN s[1] ELSE -1, b |-> IF u /\ Len(s) > 64 THEN <<>> ELSE s]
+\* (TLC re-evaluates an operator argument at every use but evaluates a LET definition once:
+\*  anything used repeatedly is LET-bound first)
+Abs(s0) == LET s == s0
+               u == Len(s) > 0 /\ \A k \in 1..Len(s) : s[k] = s[1]
+           IN [n |-> Len(s), f |-> IF u THEN s[1] ELSE -1, b |-> IF u /\ Len(s) > 64 THEN <<>> ELSE s]
 
 BadVal == [ok |-> FALSE, v |-> <<>>, next |-> 0]
 
@@ -219,8 +229,9 @@ ParseFrom(b, i, acc, lax) ==
          IF ~t.ok THEN BadParse
          ELSE LET f == Val(b, t.next, t.num, t.wt, lax) IN
               IF ~f.ok THEN BadParse
-              ELSE ParseFrom(b, f.next, Append(acc, [num |-> t.num, wt |-> t.wt, v |-> f.v]), lax)
+              ELSE LET acc2 == Append(acc, [num |-> t.num, wt |-> t.wt, v |-> f.v])
+                   IN ParseFrom(b, f.next, acc2, lax)
 Parse(b, lax) == ParseFrom(b, 1, <<>>, lax)
 
-ExtractRaw(b, lax) == LET p == Parse(b, lax) IN IF p.ok THEN ExtractD(p.fs) ELSE Rejected
+ExtractRaw(b0, lax) == LET b == b0  p == Parse(b, lax) IN IF p.ok THEN ExtractD(p.fs) ELSE Rejected
 =============================================================================
